@@ -201,7 +201,11 @@ def deadlinesVacancy (w : World) (h : Nat) (faultsEnd : Nat) (t : Nat) : World :
     let since := cands.foldl (fun m x => min m (max x.candidateSince (max kv.2 faultsEnd))) (t + 1)
     if !cands.isEmpty ∧ since + vacancyBound h < t then
       let acc := { acc with vacantSince := acc.vacantSince.map fun p => if p.1 == kv.1 then (p.1, t) else p }
-      failW acc "C06" "vacancy-not-filled" s!"key {kv.1} vacant since {kv.2} (candidates healthy since {since}), nobody leads at {t}; candidates {cands.map (·.cfg.id)}"
+      let acc := failW acc "C06" "vacancy-not-filled" s!"key {kv.1} vacant since {kv.2} (candidates healthy since {since}), nobody leads at {t}; candidates {cands.map (·.cfg.id)}"
+      -- C12: an instance demoted for its health goes on as a follower and can be re-elected
+      if cands.all (·.healthDemoted) then
+        failW acc "C12" "not-re-elected-after-health-demotion" s!"key {kv.1} vacant since {kv.2}: the only candidates {cands.map (·.cfg.id)} were demoted by the health mechanism earlier and none of them acquires"
+      else acc
     else acc) w
 
 /-- C10 promptness: in fault-free conditions with latencies up to H/10, a strictly higher-priority takeover-enabled
@@ -227,6 +231,14 @@ def deadlinesTakeover (w : World) (h : Hyp) (t : Nat) : World :=
 
 def deadlines (w : World) (t : Nat) : World :=
   w.insts.foldl (fun acc x =>
+    -- C11: a leader that got a reconnect notification reads the record afresh (100 ms settle time, then at once)
+    let acc := match x.verifyReadDue with
+      | some d => if d < t then
+            let acc := acc.updInst x.cfg.id fun y => { y with verifyReadDue := none }
+            checkW acc (!(x.flag && x.stopCalledSince.isNone && !x.cut)) "C11" "kept-leadership-without-a-fresh-read"
+              s!"instance {x.cfg.id} still leads at {t}: the reconnect notification of {d - 100000000} was not followed by a verification read"
+          else acc
+      | none => acc
     let acc := match x.graceDue with
       | some d => if d < t ∧ x.flag then
             failW (acc.updInst x.cfg.id fun y => { y with graceDue := none }) "C11" "grace-demotion-missing"
@@ -329,6 +341,19 @@ def step (m : MState) (e : TEv) : MState :=
         -- C13: no spinning — more than 60 store calls of one instance within 100 ms is not timer-paced activity
         let recent := e.t :: (x.recentCalls.filter fun t => t + 100000000 > e.t)
         let w := checkW w (recent.length ≤ 60 || x.recentCalls.length > 60) "C13" "store-hammering" s!"instance {i} issued {recent.length} store operations within 100 ms"
+        -- C17: every acquisition round waits a jitter of at least 10 ms before its first attempt: a Create that is this
+        -- instance's first for two seconds (no round of its own can still be running), issued less than that after the
+        -- periodic check that found the key vacant, with no watch notification in the last jitter window that could have
+        -- started a round earlier, belongs to a round that did not wait
+        let w := if kind == OpKind.create && !x.flag then
+            checkW w (!((match x.lastMissAt, x.trigs with
+                         | some r, [t1] => r == t1 && decide (e.t < r + 10000000)
+                         | some r, t1 :: t0 :: _ => r == t1 && decide (e.t < r + 10000000) && decide (t0 + 100000000 + m.hyp.maxLat < e.t)
+                         | _, _ => false) &&
+                       (match x.lastCreateAt with | some c => decide (c + 2000000000 < e.t) | none => true) && m.hyp.maxLat > 0))
+              "C17" "round-without-jitter" s!"instance {i}: Create {repr (x.lastMissAt.map fun r => e.t - r)} ns after the periodic check that found the key vacant"
+          else w
+        let x := if kind == OpKind.create then { x with lastCreateAt := some e.t, lastMissAt := none } else x
         let x := { x with recentCalls := recent, runToks := (match val with | .own id tok _ => if id == i && !x.runToks.contains tok then tok :: x.runToks else x.runToks | _ => x.runToks) }
         let w := w.setInst x
         let isRefreshAttempt := kind == .update && x.flag && (match val with | .own id tok _ => id == i && tok == x.flagTok | _ => false)
@@ -409,6 +434,15 @@ def step (m : MState) (e : TEv) : MState :=
     | none => { m with w := failW w0 "TRACE" "ret-unknown-op" s!"{op}" }
     | some p =>
       let w := { w0 with ops := w0.ops.filter (·.id ≠ op) }
+      let w := match r, w.inst? p.inst with
+        | .err k, some x =>
+          if (p.site == "checkKeyAndReelect" || p.site == "watchLoop") && !x.flag then
+            w.setInst { x with trigs := (e.t :: x.trigs).take 2, lastMissAt := if k == ErrKind.notfound && p.site == "checkKeyAndReelect" then some e.t else x.lastMissAt }
+          else w
+        | .ok _ _, some x =>
+          -- (a record that the decoders cannot read, or an empty one, starts a round as well)
+          if p.site == "checkKeyAndReelect" && !x.flag then w.setInst { x with trigs := (e.t :: x.trigs).take 2 } else w
+        | _, _ => w
       -- C11: after a reconnect notification the leader keeps leadership only if a fresh read shows its own record: a
       -- verification read that is answered with an error shows nothing
       let w := match r, w.inst? p.inst with
@@ -492,7 +526,8 @@ def step (m : MState) (e : TEv) : MState :=
       let newest := match w0.live x.cfg.key with
         | some rr => rr.rev
         | none => (w0.tombs.lookup x.cfg.key).getD 0
-      if rev ≠ 0 ∧ rev < newest then { m with w := w0.setInst { x with lastStaleWev := e.t } } else { m with w := w0 }
+      let x := { x with trigs := (e.t :: x.trigs).take 2 }
+      if rev ≠ 0 ∧ rev < newest then { m with w := w0.setInst { x with lastStaleWev := e.t } } else { m with w := w0.setInst x }
   | .wdrop _ _ _ => { m with w := w0 }
   | .cancelCtx i =>
     -- the application ends the run by cancelling the context it passed to Start ("the election will stop gracefully"):
@@ -505,6 +540,7 @@ def step (m : MState) (e : TEv) : MState :=
     | none => { m with w := w0 }
     | some p =>
       let w0 := { w0 with ops := w0.ops.map fun (q : PendingOp) => if q.id = op then { q with site := fn } else q }
+      let w0 := if fn == "verifyLeadershipAfterReconnect" then w0.updInst p.inst fun y => { y with verifyReadDue := none } else w0
       match w0.inst? p.inst with
       | none => { m with w := w0 }
       | some x =>
@@ -543,6 +579,7 @@ def step (m : MState) (e : TEv) : MState :=
         let x' := if x.flag then endTerm x else x
         let w := if x.flag then earlyCancelled w x e.t else w
         let w := if x.flag ∧ x.graceDue == some e.t then w.hit "C11:grace-demotion" else w
+        let hd := x.flag && x.lastHealthAt == some (e.t, false) && decide (x.healthRun ≥ healthThreshold x.cfg)
         let w := if x.flag ∧ x.lastHealthAt == some (e.t, false) then w.hit "C12:health-demotion" else w
         let w := if x.flag ∧ x.stopCalledSince.isNone then w.hit "C08:demotion-not-by-stop" else w
         -- C11: with nothing but connection notifications going on, the only demotion is the grace expiry, at exactly its instant
@@ -554,7 +591,7 @@ def step (m : MState) (e : TEv) : MState :=
                    "C12" "health-demotion-before-threshold" s!"instance {i} demoted after {x.healthRun} consecutive unhealthy checks of this term, threshold {healthThreshold x.cfg}"
         -- (the grace timer outlives a term that ends for another reason: an instance that leads again when it fires - still
         --  without a reconnect notification - is demoted then)
-        let w := w.setInst { x' with flag := false, gauge := b, graceDue := (if x.graceDue == some e.t then none else x.graceDue), verifyOpen := none, demoteDue := none, lostAt := none,
+        let w := w.setInst { x' with flag := false, gauge := b, verifyReadDue := none, healthDemoted := x'.healthDemoted || hd, graceDue := (if x.graceDue == some e.t then none else x.graceDue), verifyOpen := none, demoteDue := none, lostAt := none,
                                       hbPending := none, hbFails := 0, lastHealthAt := none, candidateSince := e.t }
         -- C07: in fault-free operation a leader is never demoted before it is stopped
         let w := checkW w (¬ (h.faultFree ∧ x.flag ∧ x.stopCalledSince.isNone)) "C07" "leader-demoted-fault-free"
@@ -731,6 +768,7 @@ def step (m : MState) (e : TEv) : MState :=
         { m with w := w1.setInst { x with discAt := some e.t, graceDue := if x.flag then some (e.t + graceOf x.cfg) else x.graceDue, verifyOpen := none,
                                           graceTie := if x.graceDue == some e.t then some e.t else none } }
       | .reconnect =>
+        let x := { x with verifyReadDue := if x.flag && x.stopCalledSince.isNone then some (e.t + 100000000) else x.verifyReadDue }
         let x1 := { x with graceDue := none, graceTie := if x.graceDue == some e.t then some e.t else none,
                            verifyOpen := if x.flag then some (e.t, !(recordIsMine w0 x)) else none }
         let w1 := if x.flag then w0.hit "C11:reconnect-while-leading" else w0
@@ -750,7 +788,11 @@ def step (m : MState) (e : TEv) : MState :=
           s!"instance {a.inst}: {repr a.kind} called at {a.t} has not returned at the end of the scenario ({e.t}), time budget {b} ns"
       | none => acc) w
     { m with w := { w with ended := true } }
-  | .gor n => { m with w := checkW w0 (n = 0) "C09" "goroutines-left" s!"{n} library goroutines alive after every instance was stopped and all operations returned" }
+  | .gor n =>
+    let w := checkW w0 (n = 0) "C09" "goroutines-left" s!"{n} library goroutines alive after every instance was stopped and all operations returned"
+    -- (C13: a goroutine of the library that never comes back - blocked for good after every store operation has been
+    --  answered and every instance stopped - is an instance that stopped responding)
+    { m with w := checkW w (n = 0) "C13" "goroutine-stuck" s!"{n} library goroutines still blocked after every instance was stopped and all operations returned" }
 
 def run (tr : Trace) : MState := tr.foldl step {}
 
